@@ -23,12 +23,14 @@ PLANS = {
         "quick": [("core3", "core", 3, 9000, "simplify"), ("beta3", "beta", 3, 8000, "simplify"),
                   ("fuse3", "fuse", 3, None, "simplify"), ("expr3", "expr", 3, 4000, "simplify"),
                   ("chain1_4", "chain1", 4, 3000, "simplify"), ("fuse1_3", "fuse1", 3, 4000, "simplify_m"),
-                  ("betad3", "betad", 3, 4000, "simplify"), ("corea3", "corea", 3, 4000, "simplify_fresh")],
+                  ("betad3", "betad", 3, 4000, "simplify"), ("corea3", "corea", 3, 4000, "simplify_fresh"),
+                  ("fused3", "fused", 3, 4000, "simplify")],
         "thorough": [("core3", "core", 3, None, "simplify"), ("beta3", "beta", 3, None, "simplify"),
                      ("corea3", "corea", 3, None, "simplify_fresh"),
                      ("fuse4", "fuse", 4, 120000, "simplify"), ("expr3", "expr", 3, None, "simplify"),
                      ("chain4", "chain", 4, 60000, "simplify"), ("fuse1_4", "fuse1", 4, 80000, "simplify_m"),
-                     ("chain1_5", "chain1", 5, 60000, "simplify"), ("betad3", "betad", 3, None, "simplify")],     # (betad budget 4: > 18M derivation states)
+                     ("chain1_5", "chain1", 5, 60000, "simplify"), ("betad3", "betad", 3, None, "simplify"),
+                     ("fused3", "fused", 3, None, "simplify")],     # (betad budget 4: > 18M derivation states)
         "random": {"quick": (400, 7), "thorough": (6000, 8)},
     },
     "C18": {
